@@ -575,7 +575,9 @@ fn main() {
         check_unary(&run, &un[i], &mut t);
         t
     });
-    let pool: Vec<Dec> = vec![Dec::new(0, 0), Dec::new(0, 7), Dec::new(0, -7), Dec::new(1, 0), Dec::new(100, 2), Dec::new(-1, 0), Dec::new(5, 1), Dec::new(-125, 3), Dec::new(3, -2), Dec { n: pow10(19) + 1, s: 19 }, Dec { n: -pow10(20), s: 0 }, Dec::new(999, -25)];
+    let mut pool: Vec<Dec> = vec![Dec::new(0, 0), Dec::new(0, 7), Dec::new(0, -7), Dec::new(1, 0), Dec::new(100, 2), Dec::new(-1, 0), Dec::new(5, 1), Dec::new(-125, 3), Dec::new(3, -2), Dec { n: pow10(19) + 1, s: 19 }, Dec { n: -pow10(20), s: 0 }, Dec::new(999, -25)];
+    // summands of ONE scale whose coefficients sit at the machine-word limits (their running sums cross 2^63, 2^64)
+    pool.extend([Dec::new(i64::MAX, 2), Dec::new(i64::MIN, 2), Dec::new(1i64 << 62, 2), Dec::new(6_000_000_000_000_000_000i64, 2), Dec { n: BigInt::from(u64::MAX), s: 2 }, Dec::new(1, 2)]);
     run.bound("S4_sum_pool", pool.len());
     run.par("S4 sums of sequences <= 3", pool.len() + 1, |i| {
         let mut t = Tally::default();
